@@ -39,5 +39,7 @@ SEEDED = [
     ("C05-9", "C05-KEYS"),
     ("C05-10", "C05-GRAMMAR"),
     ("C05-11", "C05-KEYS"),
+    ("C05-12", "C05-ANY"),
+    ("C05-13", "C05-BIN"),
 ]
 MUTANTS = list(MUTANTS) + [_P("seed-" + sid, _os.path.join(_SEEDS, sid, "patch.diff"), rule) for sid, rule in SEEDED if _os.path.exists(_os.path.join(_SEEDS, sid, "patch.diff"))]
